@@ -51,7 +51,7 @@ PROPERTIES = {
         "assumptions": ["ops counter of the ghost terminal counts cursor/write/clear operations; width()/height() are queries"],
     },
     "C18": {
-        "units": ["bar_draw", "draw_to_term"],
+        "units": ["bar_draw", "draw_to_term", "multi_state"],
         "level": "proof",
         "explanation": "Every terminal operation of the ghost terminal may return Err at any call; all functions of the draw path (draw_to_term, Drawable::{draw, clear}, BarState::{draw, println, finish_using_style, update_estimate_and_draw, tick, drop}, ProgressBar::{set_tab_width, force_draw}) are verified panic-free under that model (an unwrap on a draw result cannot be discharged), keep the logical state (same postconditions on Ok and Err paths), and draw_to_term leaves the accounted row count unchanged on Err.",
         "level_text": "Deductive proof (Verus) of panic-freedom and state preservation for every failure point and any number of failures (each operation's failure is an unconstrained Result in the model).",
@@ -174,6 +174,7 @@ WITNESS = {
     "c15_formatters/HumanFloatCount::fmt": ["human_float"],
     "c15_formatters/HumanCount::fmt": ["human_count"],
     "c15_formatters/FormattedDuration::fmt": ["formatted_duration"],
+    "multi_state/MultiState::suspend": ["io_fail_multi"],
     "multi_state/MultiState::draw__F_C03_log": ["c03_clear_overshoot"],
     "multi_state/MultiState::draw__F_C03_text": ["c03_text_below_zombies"],
     "multi_state/MultiState::draw__F_C03_skip": ["c03_skip_recount"],
